@@ -99,6 +99,18 @@ def cases(draw, cells):
             fname, i, ref, card = rows[r]
             fields.append([fname, i, draw(field_model(v, ref, ec))])
         model.append([s, fields])
+    # segments outside the declared structure: a Z segment and a real segment foreign to this message
+    if draw(st.integers(0, 2)) == 0:
+        zf = [['ZXX_%d' % i, i, [[[draw(leaf(ec))]]]] for i in sorted(set(draw(st.lists(st.integers(1, 4), min_size=1, max_size=2))))]
+        model.insert(draw(st.integers(0, len(model))), ['ZXX', zf])
+    if draw(st.integers(0, 3)) == 0:
+        inside = set(T.name_places(T.message_ref(v, m)))
+        foreign = [s for s in T.segments(v) if s not in inside and s != 'MSH']
+        if foreign:
+            s = draw(st.sampled_from(foreign))
+            rows = T.seg_fields(v, s)
+            fname, i, ref, card = rows[draw(st.integers(0, len(rows) - 1))]
+            model.insert(draw(st.integers(0, len(model))), [s, [[fname, i, draw(field_model(v, ref, ec))]]])
     mshf = []
     for (fname, i, ref, card) in T.seg_fields(v, 'MSH'):
         if i in (3, 4, 5, 6) and draw(st.booleans()):
@@ -162,9 +174,9 @@ def build(case):
         setattr(msg.msh, fname, _enc_field(reps, ec))          # string assignment: parsed with the message's set
     for s, fields in case['model']:
         seg = msg.add_segment(s)
-        srows = {r[0]: r for r in T.seg_fields(v, s)}
+        srows = {r[0]: r for r in T.seg_fields(v, s)} if not s.startswith('Z') else {}
         for fname, i, reps in fields:
-            ref = srows[fname][2]
+            ref = srows[fname][2] if fname in srows else ('leaf', None, 'ST', None, None, -1)
             for n, comps in enumerate(reps):
                 if how == 2 and n == 0:
                     setattr(seg, fname, _enc_field([comps], ec))
